@@ -191,7 +191,7 @@ func checkC11(p *Prog, res *Result, tier string) {
 	res.Assumptions = []string{"badger / tikv transactions are atomic and isolated", "huandu/skiplist is not safe for concurrent use"}
 	res.rule("C11-R1", "conditional ops report only nil / failed condition / engine errors, and compare before they write", 15)
 	res.rule("C11-R2", "Commit is all-or-nothing by structure; memkv holds its lock from BeginBatchWrite to Commit", 10)
-	res.rule("C11-R3", "iterator keys are checked against the end bound", 3)
+	res.rule("C11-R3", "iterator keys are checked against the end bound; an iterator reads at the caller's timestamp or at one read from the oracle, never at a constant", 3)
 	res.rule("C11-R5", "metrics wrapper forwards each overridden method exactly once with parameters in order", 8)
 	res.rule("C11-R6", "Get returns the ErrKeyNotFound sentinel itself", 3)
 	res.rule("C11-R7", "reported partitions are clamped into the requested interval", 3)
@@ -276,6 +276,7 @@ func checkC11(p *Prog, res *Result, tier string) {
 
 	checkCommitStructure(p, r, res)
 	checkIterBounds(p, r, res)
+	checkIterSnapshot(p, r, res)
 	checkWrapperTransparency(p, r, res)
 	checkNotFoundIdentity(p, r, res, "C11-R6")
 	checkPartitionClamp(p, r, res, "C11-R7")
@@ -337,6 +338,37 @@ func checkCommitStructure(p *Prog, r *Roles, res *Result) {
 				if isEngineCall(c, "NewTransaction", "Begin", "NewTransactionAt") {
 					res.bad("C11-R2", short+".Commit: one engine transaction per batch", p.pos(c.Pos()), "Commit opens a new engine transaction: the batch is applied in pieces and a later failed condition leaves earlier pieces visible")
 				}
+			}
+		}
+		// the staged operations (methods of the batch type and the closures they queue) neither commit nor replace
+		// the engine transaction: only Commit ends it, only BeginBatchWrite opens it
+		{
+			construct := short + ": staged operations never commit or replace the engine transaction"
+			bad := false
+			var batchT types.Type
+			if commit.Signature.Recv() != nil {
+				batchT = commit.Signature.Recv().Type()
+			}
+			for _, f := range p.AllFuncs {
+				if f.Synthetic != "" || f.Pkg != commit.Pkg {
+					continue
+				}
+				top := f
+				for top.Parent() != nil {
+					top = top.Parent()
+				}
+				if top == commit || top.Signature.Recv() == nil || batchT == nil || !types.Identical(top.Signature.Recv().Type(), batchT) {
+					continue
+				}
+				for _, c := range callsIn(f) {
+					if isEngineCall(c, "Commit", "CommitWith", "NewTransaction", "Begin", "NewTransactionAt") {
+						bad = true
+						res.bad("C11-R2", construct, p.pos(c.Pos()), funcName(f)+" ends or replaces the engine transaction while operations are being staged: the batch is carried by several engine transactions and is no longer all-or-nothing")
+					}
+				}
+			}
+			if !bad {
+				res.ok("C11-R2", construct, p.pos(commit.Pos()), "no engine Commit / new transaction in the batch type's other methods or queued closures")
 			}
 		}
 		construct := short + ".Commit: exactly one engine commit, not in a loop"
@@ -575,6 +607,62 @@ func boundCheckers(p *Prog, sp *ssa.Package) map[*ssa.Function]bool {
 		}
 	}
 	return out
+}
+
+// checkIterSnapshot: where an adapter's Iter hands a read timestamp to its engine (tikv GetSnapshot, a managed badger
+// transaction), that timestamp is the caller's or one obtained from the timestamp oracle. A constant ("newest") makes
+// every batch of the scan read a different state: an iterator is no longer one snapshot.
+func checkIterSnapshot(p *Prog, r *Roles, res *Result) {
+	for _, ap := range adapterPkgs {
+		short := ap[strings.LastIndex(ap, "/")+1:]
+		it := p.implIn(r.KVIter, ap)
+		if it == nil {
+			continue
+		}
+		var tsParam *ssa.Parameter
+		for _, prm := range it.Params {
+			if bt, ok := prm.Type().Underlying().(*types.Basic); ok && bt.Kind() == types.Uint64 && tsParam == nil {
+				tsParam = prm
+			}
+		}
+		n := 0
+		for _, f := range withAnon(it) {
+			for _, c := range callsIn(f) {
+				if !isEngineCall(c, "GetSnapshot", "NewTransactionAt", "NewStreamAt") {
+					continue
+				}
+				for _, a := range c.Common().Args {
+					bt, ok := a.Type().Underlying().(*types.Basic)
+					if !ok || bt.Kind() != types.Uint64 {
+						continue
+					}
+					n++
+					construct := fmt.Sprintf("%s.Iter: read timestamp handed to the engine #%d", short, n)
+					bad := ""
+					for _, v := range valuesThroughClosures(p, a) {
+						v = p.resolveDeep(v)
+						if tsParam != nil && v == ssa.Value(tsParam) {
+							continue
+						}
+						if cc, _, ok := extractOf(v); ok {
+							if sc := cc.Common().StaticCallee(); sc != nil && unwrapSynthetic(sc) == p.implIn(r.KVGetTSO, ap) {
+								continue
+							}
+							if cc.Common().IsInvoke() && cc.Common().Method == r.KVGetTSO {
+								continue
+							}
+						}
+						bad = v.String()
+					}
+					if bad == "" {
+						res.ok("C11-R3", construct, p.pos(c.Pos()), "the caller's timestamp, or one read from the oracle when the caller gave none")
+					} else {
+						res.bad("C11-R3", construct, p.pos(c.Pos()), "the iterator reads at "+bad+", which is neither the caller's timestamp nor a timestamp obtained from the oracle: a scan that needs several engine requests is stitched together from different states of the store")
+					}
+				}
+			}
+		}
+	}
 }
 
 func checkIterBounds(p *Prog, r *Roles, res *Result) {
